@@ -35,6 +35,7 @@ func runC17(c *report.Ctx) {
 	c.Clause("2 token validation")
 	checkTokenValidation(c)
 	c.Clause("3 classification and reset")
+	checkTrailerDeclarations(c)
 	checkPayloadCopy(c)
 	c.Clause("4 token bucket")
 	checkTokenBucket(c)
@@ -663,8 +664,85 @@ func checkTokenBucket(c *report.Ctx) {
 		ok := len(cp) == 1 && len(cl) == 1 && an.InstrDominates(cp[0], cl[0])
 		c.Check("R-ORDER", an.FuncName(f)+"/stop-after-copy", "the refill ticker is stopped only after the copy returned (a waiting write is never starved of refills)", ok, fpos(f), 2, "%v", ok)
 	}
+	// refills are paced by the ticker: every produceTokens call of the refill goroutine sits in the select case
+	// that received a tick (a refill before the first tick, or one per loop turn regardless of the tick, lifts
+	// the volume above burst + rate x t)
+	if st := fn(c, bwP, "(*Throttler).start"); st != nil {
+		var g *ssa.Function
+		for _, a := range st.AnonFuncs {
+			if len(an.CallsTo(a, bwP+".Bucket.produceTokens")) > 0 {
+				g = a
+			}
+		}
+		if g == nil {
+			c.Unresolved("ANCHOR", bwP+".Throttler.start/refill-goroutine", "no goroutine of Throttler.start calls produceTokens")
+		} else {
+			facts := an.NewFacts(g)
+			ok, n := true, 0
+			for _, call := range an.CallsTo(g, bwP+".Bucket.produceTokens") {
+				n++
+				sel, idx := selectCase(facts, call.Block())
+				tick := false
+				if sel != nil && idx >= 0 && idx < len(sel.States) && sel.Blocking {
+					if fa, k := an.AsField(an.Strip(sel.States[idx].Chan, false)); k && fa.Struct == "time.Ticker" && fa.Field == "C" {
+						tick = true
+					}
+				}
+				if !tick {
+					ok = false
+				}
+			}
+			// the ticker's period is the bucket's refill interval
+			per := false
+			for _, call := range an.CallsTo(g, "time.NewTicker") {
+				per = loadOf(bwP+".Bucket", "refillInterval")(an.Strip(call.Common().Args[0], false))
+			}
+			c.Check("R-GUARD", an.FuncName(g)+"/refill-only-on-tick", "tokens are produced only in the select case that received a tick of a ticker whose period is the bucket's refill interval", ok && n >= 1 && per, fpos(g), n+1, "produceTokens sites: %d, all in the ticker case of a blocking select: %v; ticker period is refillInterval: %v", n, ok, per)
+		}
+	}
 	sites := siteFns(callSites(c, bwP+".Throttler.stop"))
 	c.Check("R-WHO", bwP+".Throttler.stop/callers", "the ticker is stopped only through the writer's Close", strings.Join(sites, ",") == bwP+".BandwidthLimitingWriter.Close", token.NoPos, len(sites), "%v", sites)
 }
 
 var _ = report.Discharged
+
+// checkTrailerDeclarations: net/http sends only trailers that were declared in the "Trailer" header before
+// the body. The End-Of-Response trailer is declared once, with Set, when the direct invoke is received; every
+// later declaration ADDS to the header (a Set or Del would withdraw End-Of-Response and the caller could no
+// longer tell a complete response from a truncated or oversized one).
+func checkTrailerDeclarations(c *report.Ctx) {
+	nSet, nAdd := 0, 0
+	var bad []string
+	var pos token.Pos
+	for _, f := range repoFuncs(c) {
+		if !strings.HasPrefix(an.FuncName(f), diP+".") {
+			continue
+		}
+		for _, call := range an.CallsTo(f, "net/http.Header.Set", "net/http.Header.Del", "net/http.Header.Add") {
+			a := call.Common().Args
+			if len(a) < 2 {
+				continue
+			}
+			if k, isC := an.ConstString(a[1]); !isC || !strings.EqualFold(k, "Trailer") {
+				continue
+			}
+			switch an.Callee(call) {
+			case "net/http.Header.Add":
+				nAdd++
+			default:
+				nSet++
+				v := ""
+				if len(a) == 3 {
+					v, _ = an.ConstString(a[2])
+				}
+				if an.Callee(call) != "net/http.Header.Set" || an.FuncName(f) != diP+".ReceiveDirectInvoke" || v != "End-Of-Response" {
+					bad = append(bad, an.FuncName(f)+": "+an.Callee(call)+"(\"Trailer\", "+v+")")
+					if pos == token.NoPos {
+						pos = an.InstrPos(call)
+					}
+				}
+			}
+		}
+	}
+	c.Check("R-WHO", diP+"/trailer-declarations", "the Trailer header is initialised once (End-Of-Response, on receiving the direct invoke) and only added to afterwards", len(bad) == 0 && nSet == 1 && nAdd >= 2, pos, nSet+nAdd, "Set/Del: %d, Add: %d; not allowed: %v", nSet, nAdd, bad)
+}
